@@ -145,13 +145,11 @@ theorem seqRound_flat_keeps_strangers (gas : Nat) (m : Mode) (ps : List Particle
           · split at h
             · cases h
             · split at h
-              · simp [Particle.isOrderIndicator] at *
-              · split at h
-                · simp only [pure_eq_ok] at h; subst h; exact ⟨[], rfl, by simp⟩
-                · obtain ⟨r', hr', h⟩ := bind_ok _ _ _ h
-                  simp only [pure_eq_ok] at h; subst h
-                  obtain ⟨taken, ht, hall⟩ := ih ps xs r' hf hr'
-                  exact ⟨taken, ht, fun y hy => by simp [declaredNames, hall y hy]⟩
+              · simp only [pure_eq_ok] at h; subst h; exact ⟨[], rfl, by simp⟩
+              · obtain ⟨r', hr', h⟩ := bind_ok _ _ _ h
+                simp only [pure_eq_ok] at h; subst h
+                obtain ⟨taken, ht, hall⟩ := ih ps xs r' hf hr'
+                exact ⟨taken, ht, fun y hy => by simp [declaredNames, hall y hy]⟩
         · cases h
         · rename_i r0 hr0
           obtain ⟨t0, ht0, hall0⟩ := parseP_elem_takes_own_name gas m q min max ty xs r0 hr0
